@@ -382,7 +382,11 @@ func VH_C15_internal(kind, variant int) {
 	b := vhC15Site_(kind, "lb", ic)
 	cr.Start(a.ctx)
 	vquiesce()
-	_, err = a.loc.AddRule(a.ctx, "r1", vhSchedRule("+300ms"))
+	schedA := "+300ms"
+	if variant == 5 {
+		schedA = " +300ms" // the schedule parser trims white space; so must everybody else
+	}
+	_, err = a.loc.AddRule(a.ctx, "r1", vhSchedRule(schedA))
 	vassert(err == nil, "addrule-succeeds")
 	_, err = b.loc.AddRule(b.ctx, "r1", vhSchedRule("+400ms"))
 	vassert(err == nil, "addrule-succeeds")
@@ -405,7 +409,11 @@ func VH_C15_internal(kind, variant int) {
 		a.loc.SetReadOnly(a.ctx, true)
 	}
 	vquiesce()
-	if variant == 0 || variant == 3 || variant == 4 {
+	if variant == 0 || variant == 5 {
+		_, gerr := a.loc.GetRule(a.ctx, "r1")
+		vassert(gerr != nil, "one-shot-rule-deleted-after-its-tick")
+	}
+	if variant == 0 || variant == 3 || variant == 4 || variant == 5 {
 		vassert(len(a.rec.ran) == 1, "each-location-runs-its-own-scheduled-rule")
 	} else {
 		vassert(len(a.rec.ran) == 0, "removed-rule-no-longer-runs")
